@@ -22,6 +22,7 @@ import (
 	"strings"
 	"sync"
 
+	"chainguard.dev/apko/internal/verifhook"
 	"chainguard.dev/apko/pkg/apk/internal/tarfs"
 	"github.com/klauspost/compress/gzip"
 
@@ -152,11 +153,13 @@ func (a *APKExpanded) PackageData() (*os.File, error) {
 		return nil, fmt.Errorf("parsing %q: %w", a.PackageFile, err)
 	}
 
+	verifhook.Point("regen.begin " + a.TarFile)
 	uf, err = os.Create(a.TarFile)
 	if err != nil {
 		return nil, fmt.Errorf("opening tar file %q: %w", a.TarFile, err)
 	}
 
+	verifhook.Point("regen.created " + a.TarFile)
 	buf := pooledSlice()
 	defer slicePool.Put(buf)
 
@@ -168,6 +171,7 @@ func (a *APKExpanded) PackageData() (*os.File, error) {
 		return nil, fmt.Errorf("closing %q: %w", a.TarFile, err)
 	}
 
+	verifhook.Point("regen.done " + a.TarFile)
 	return os.Open(a.TarFile)
 }
 
@@ -293,6 +297,7 @@ func (w *expandApkWriter) Next() error {
 		return fmt.Errorf("expandApkWriter.Next error 5: %w", err)
 	}
 	w.f = file
+	verifhook.Point("expand.stream " + p)
 
 	// At this point, we should have created the final tar.gz file,
 	// so inform the consumer of this method to speed up the read
@@ -369,6 +374,7 @@ func ExpandApk(ctx context.Context, source io.Reader, cacheDir string) (*APKExpa
 		return nil, err
 	}
 
+	verifhook.Point("expand.dir " + dir)
 	sw, err := newExpandApkWriter(dir, "stream", "tar.gz")
 	if err != nil {
 		return nil, fmt.Errorf("expandApk error 1: %w", err)
@@ -425,6 +431,7 @@ func ExpandApk(ctx context.Context, source io.Reader, cacheDir string) (*APKExpa
 			if err != nil {
 				return nil, fmt.Errorf("opening tar file: %w", err)
 			}
+			verifhook.Point("expand.tar " + tarfilename)
 			bw := pooledBufioWriter(tarfile)
 			defer writerPool.Put(bw)
 
@@ -460,6 +467,7 @@ func ExpandApk(ctx context.Context, source io.Reader, cacheDir string) (*APKExpa
 		return nil, fmt.Errorf("expandApk error 7: %w", err)
 	}
 
+	verifhook.Point("expand.done " + dir)
 	numGzipStreams := len(gzipStreams)
 
 	// Calculate the total size of the apk (combo of all streams)
